@@ -35,7 +35,7 @@ Section ChainSound.
       0 <= consumed <= srcSize /\ (lim <> FillOutput -> consumed = srcSize) /\
       spec_decode (seg vrd lo s0) out = Some (seg vrd s0 (s0 + consumed)) /\
       (lim <> FillOutput -> strict_valid (seg vrd lo s0) out = Some (seg vrd s0 (s0 + consumed))) /\
-      ret = Z.of_nat (length out) /\ TB t iend
+      ret = Z.of_nat (length out) /\ TB t iend /\ bytes_ok out = true
     | _ => True
     end.
 
@@ -73,7 +73,7 @@ Section ChainSound.
       assert (Hout : rev_append (c_rout s) (encode_last last) = encode_block ss last).
       { rewrite rev_append_rev, Hr. reflexivity. }
       replace (s0 + (c_anchor s + lr - s0)) with (c_anchor s + lr) by lia.
-      split; [|split; [|split; [|exact HT]]].
+      split; [|split; [|split; [|split; [exact HT|]]]].
       - rewrite Hout. apply factor_block_decodes; try assumption; try lia.
         subst last. rewrite He. reflexivity.
       - intros Hn. specialize (Hfull Hn). rewrite Hout.
@@ -84,7 +84,8 @@ Section ChainSound.
           unfold mi_matchlimit, mi_mflimit, mi_iend, MFLIMIT, LASTLITERALS in *. lia. }
         rewrite Eo. apply (factor_decodes vrd lo s0 (c_anchor s + lr) ss last); try assumption; try lia.
         subst last. rewrite He. reflexivity.
-      - rewrite rev_append_rev, app_length, rev_length, Nat2Z.inj_add, Hop. rewrite <- Henc. reflexivity. }
+      - rewrite rev_append_rev, app_length, rev_length, Nat2Z.inj_add, Hop. rewrite <- Henc. reflexivity.
+      - rewrite Hout. apply encode_block_bytes; [eapply seqs_valid_wf; eauto | subst last; apply seg_bytes_ok; exact Hb]. }
     destruct (hc_limited lim && (c_op s + (1 + (lastRun + 255 - RUN_MASK) / 255 + lastRun) >? oend)) eqn:E.
     - destruct lim eqn:El; try exact I.
       destruct (oend - c_op s <? 1) eqn:E1; [exact I|].
